@@ -336,6 +336,7 @@ def run(ctx):
     clear_fns = {n for n in F.fns if n.endswith("DoorKeeper::clear")}
     opaque = lambda n: n in dk_fns or n in sk_inc or n in age_fns or n in rs_fns or n in clear_fns
     cands = {}
+    cand_key = {}
     for n, f in F.fns.items():
         if f.kind == "Closure" or n.startswith("cache::proxy::") or f.argc < 2 or n in dk_fns or n in sk_inc or n in age_fns:
             continue
@@ -344,6 +345,17 @@ def run(ctx):
         ps = ipaths(F, f, stop=opaque, depth=2)
         if ps and all(len(p.calls(dk_fns)) == 1 and p.calls(dk_fns)[0].args[1] == ("param", 2) for p in ps):
             cands[n] = (f, ps)
+            cand_key[n] = ("param", 2)
+            continue
+        # the per-access step written inside the loop over a buffer of hashes (`for h in hashes { .. }`): the loop's body,
+        # with the element as the key, is the access-recording step
+        for L_ in elem_loops(F, f, stop=opaque, depth=2):
+            k_ = L_.over_all(lambda c_: strip_site(c_)[0] == "param")
+            if k_ is None or not L_.bodies:
+                continue
+            if all(len(q.calls(dk_fns)) == 1 and q.calls(dk_fns)[0].args[1] == ELEM(k_) for q in L_.bodies):
+                cands[n] = (f, L_.bodies)
+                cand_key[n] = ELEM(k_)
     lfu = [cands[n][0] for n in sorted(cands) if not any(t.get("rpath") == n for m in cands if m != n for b, t in cands[m][0].calls())]
     ctx.floor("R14.6", "access-recording functions (doorkeeper then sketch)", len(lfu), 1)
     counter = None
@@ -365,7 +377,7 @@ def run(ctx):
                 bad.append("first access (newly added to the doorkeeper) also increments the sketch")
             if not a[0][2] and len(inc) != 1:
                 bad.append("repeated access increments the sketch %d times" % len(inc))
-            if inc and inc[0].args[1] != ("param", 2):
+            if inc and inc[0].args[1] != cand_key[f.name]:
                 bad.append("sketch incremented for a different hash")
             bumps = [x for x in p.stores if x[0][0] == "field" and x[0][1] == ("param", 1) and x[1][0] == "binop" and x[1][1] == "Add" and ("const", 1, "u64") in (x[1][2], x[1][3])]
             if len(bumps) != 1:
